@@ -3039,6 +3039,9 @@ namespace awkward {
                     "dimensions (for jagged indexing), but not both in the "
                     "same slice item") + FILENAME(__LINE__));
     }
+    if (!iscontiguous()) {
+      return contiguous().asslice();
+    }
     if (dtype_ == util::dtype::int64) {
         int64_t* raw = reinterpret_cast<int64_t*>(ptr_.get());
         std::shared_ptr<int64_t> ptr(ptr_, raw);
